@@ -180,6 +180,17 @@ def shareLoop (data : Bytes) (offset : Nat) : (treeIndex smaller pCount : Nat) â
 
 def kMaxSize : Nat := 64
 
+/-- The part of `add` that decides where the new constant goes: the gap loop, then
+`if (offset == ~size_t(0)) { diff = align_up_diff(_size, size); if (diff) { addGap(_size, diff); _size += diff; } offset = _size; _size += size; }`.
+Returns (`_gaps`, `offset`, `_size`). -/
+def allocOffset (s : Pool) (size treeIndex : Nat) : List (List Gap) Ã— Nat Ã— Nat :=
+  let r := gapLoop size treeIndex (6 - treeIndex) s.gaps none
+  match r.2 with
+  | some o => (r.1, o, s.size)
+  | none =>
+    let diff := alignUpDiff s.size size
+    (if diff â‰  0 then addGap r.1 s.size diff else r.1, s.size + diff, s.size + diff + size)
+
 /-- `ConstPool::add(data, size, offset_out)` with `size = data.length` -/
 def add (s : Pool) (data : Bytes) : Pool Ã— Result :=
   let size := data.length
@@ -191,17 +202,11 @@ def add (s : Pool) (data : Bytes) : Pool Ã— Result :=
       match treeGet (getAt s.tree treeIndex) data with
       | some node => (s, .ok node.offset)
       | none =>
-        let (gaps, offset?) := gapLoop size treeIndex (6 - treeIndex) s.gaps none
-        let (gaps, offset, poolSize) :=
-          match offset? with
-          | some o => (gaps, o, s.size)
-          | none =>
-            let diff := alignUpDiff s.size size
-            let gaps := if diff â‰  0 then addGap gaps s.size diff else gaps
-            (gaps, s.size + diff, s.size + diff + size)
+        let a := allocOffset s size treeIndex
+        let offset := a.2.1
         let tree := setAt s.tree treeIndex (treeInsert { data := data, offset := offset, shared := false } (getAt s.tree treeIndex))
         let tree := shareLoop data offset treeIndex size 1 tree
-        ({ tree := tree, gaps := gaps, size := poolSize,
+        ({ tree := tree, gaps := a.1, size := a.2.2,
            alignment := max s.alignment size,
            minItemSize := if s.minItemSize = 0 then size else min s.minItemSize size }, .ok offset)
 
